@@ -101,6 +101,14 @@ def trees(max_nodes, with_ext=True):
         out.append(("{k:%s}" % l, {"k": v}, core))
         if with_ext and max_nodes >= 4:
             out.append(("(%s,)" % l, (v,), False))
+    if with_ext:
+        import uuid as _u
+        u = _u.UUID(int=77)
+        out.append(("[(1,2),uuid]", [(1, 2), u], False))
+        out.append(("((1,2),uuid)", ((1, 2), u), False))
+        out.append(("{k:(1,),j:uuid}", {"k": (1,), "j": u}, False))
+        out.append(("[{1,2},uuid]", [{1, 2}, u], False))
+        out.append(("[b'x',uuid]", [b"x", u], False))
     out.append(("{'é':{'😀':[]}}", {"é": {"\U0001F600": []}}, True))
     out.append(("[[],{}]", [[], {}], True))
     out.append(("[]", [], True))
